@@ -18,6 +18,7 @@
 package kv
 
 import (
+	"math"
 	"math/rand"
 	"path/filepath"
 	"sort"
@@ -66,7 +67,14 @@ func (r *rollup) GetTimestamp(slot uint16) int64 {
 }
 
 func (r *rollup) IntervalRatio() uint16 {
-	return uint16(r.target / r.source)
+	ratio := r.target / r.source
+	if ratio > math.MaxUint16 {
+		// target/source does not fit uint16 (1s -> 19h = 68400): do not wrap. A source family holds
+		// less than 65535 slots and then lies inside one target slot, so slot/ratio has to be 0
+		// for every source slot, which the largest uint16 guarantees.
+		return math.MaxUint16
+	}
+	return uint16(ratio)
 }
 
 func (r *rollup) CalcSlot(timestamp int64) uint16 {
